@@ -21,12 +21,14 @@ from rvref import codec
 PROPERTY = "C18"
 LEVEL = "fault_enumeration"
 ASSUMPTIONS = [
-    "the library reaches files only through read/seek/tell/close of the object it is given or opens via pathlib.Path.open "
-    "(wrapped from the check, no source hook)",
+    "the library reaches files through read/seek/tell/close of the object it is given, or opens paths via pathlib.Path.open / "
+    "builtins.open / io.open (all three wrapped from the check, no source hook); a path load reaching the file some other "
+    "way is counted as untracked, not failed",
     "one fault per load (single-fault plans); the fault is an OSError subclass or a truncated input",
 ]
 
 _opened = []
+untracked = [0]
 _real_open = pathlib.Path.open
 _serve = {}
 
@@ -43,6 +45,39 @@ def _patched_open(self, *a, **kw):
         _opened.append(f)
         return f
     return _real_open(self, *a, **kw)
+
+
+import builtins
+import io
+
+_real_builtin_open = builtins.open
+_real_io_open = io.open
+
+
+def _patched_builtin_open(file, *a, **kw):
+    key = os.fspath(file) if isinstance(file, (str, os.PathLike)) else None
+    if key is not None and key in _serve:
+        if _serve[key] == "real":
+            f = _real_builtin_open(file, *a, **kw)
+            _opened.append(f)
+            return f
+        data, fail_at = _serve[key]
+        f = FaultyFile(data, fail_at)
+        _opened.append(f)
+        return f
+    return _real_builtin_open(file, *a, **kw)
+
+
+def _install_seams():
+    pathlib.Path.open = _patched_open
+    builtins.open = _patched_builtin_open
+    io.open = _patched_builtin_open
+
+
+def _remove_seams():
+    pathlib.Path.open = _real_open
+    builtins.open = _real_builtin_open
+    io.open = _real_io_open
 
 
 class ChunkFault(Exception):
@@ -77,39 +112,41 @@ def one_load(data, flag, mode, fail_at=None, chunk_fail=None):
             os.close(fd)
             _serve[name] = "real"
             del _opened[:]
-            pathlib.Path.open = _patched_open
+            _install_seams()
             try:
                 read_sunvox_file(name if len(data) % 2 else pathlib.Path(name))
                 outcome = "returned"
             except BaseException as e:
                 outcome = "raised:" + type(e).__name__
             finally:
-                pathlib.Path.open = _real_open
+                _remove_seams()
                 _serve.pop(name, None)
                 os.unlink(name)
             handle = _opened[-1] if _opened else None
+            for h in _opened:
+                if not h.closed:
+                    problems.append(("library-opened-file-left-open", {"outcome": outcome}))
+                    h.close()
+                    break
             if handle is None:
-                problems.append(("path-not-opened-through-Path.open", {}))
-            elif not handle.closed:
-                problems.append(("library-opened-file-left-open", {"outcome": outcome}))
-                handle.close()
+                untracked[0] += 1      # the library reached the file some other way: nothing to assert
         elif mode == "path":
             name = "/nonexistent/rv-verif-c18.sunvox"
             _serve[name] = (data, fail_at)
             del _opened[:]
-            pathlib.Path.open = _patched_open
+            _install_seams()
             try:
                 read_sunvox_file(name)
                 outcome = "returned"
             except BaseException as e:
                 outcome = "raised:" + type(e).__name__
             finally:
-                pathlib.Path.open = _real_open
+                _remove_seams()
                 _serve.pop(name, None)
             handle = _opened[-1] if _opened else None
             if handle is None:
-                problems.append(("path-not-opened-through-Path.open", {}))
-            elif not handle.closed:
+                untracked[0] += 1      # opened through neither Path.open nor open(): nothing to assert in this mode
+            elif any(not h.closed for h in _opened):
                 problems.append(("library-opened-file-left-open", {"outcome": outcome}))
         else:
             handle = FaultyFile(data, fail_at)
@@ -244,6 +281,9 @@ def _task(t):
                 r["evals"] += 1
                 C.count(r, outcome.split(":")[0])
                 C.count(r, "plan-" + plan[0])
+                if untracked[0]:
+                    C.count(r, "path-loads-not-tracked", untracked[0])
+                    untracked[0] = 0
                 outcomes.add((plan[0], outcome))
                 if len(r["violations"]) < 30:
                     r["violations"] += vs
@@ -284,5 +324,6 @@ def run(ctx):
         "exhaustive": True,
         "plans": nplans, "returned": agg.counters.get("returned", 0), "raised": agg.counters.get("raised", 0),
         "by_plan_kind": {k[5:]: v for k, v in agg.counters.items() if k.startswith("plan-")},
+        "path_loads_whose_handle_could_not_be_tracked": agg.counters.get("path-loads-not-tracked", 0),
         "samples": agg.samples,
     }
